@@ -225,7 +225,8 @@ Lemma restrict_topo_einval_iff filters dm t S flags :
 Proof.
   rewrite <- restrict_prune_einval_iff. unfold restrict_topo.
   destruct (restrict_prune t S flags) as [| |t1]; try tauto; try (split; discriminate).
-  destruct (keep_structure filters dm (tp_root t1)); split; discriminate.
+  destruct (keep_structure filters dm (tp_root t1)) as [r|]; [|split; discriminate].
+  destruct (set_group_depths (retotal r)); split; discriminate.
 Qed.
 
 (* the dropped sets handed to the recursion *)
@@ -1087,4 +1088,34 @@ Proof.
     destruct (pus_complete P (bs_compl S) Hby Hdc _ Hok p Hp Hpu) as (o' & Ho' & G).
     + rewrite mem_compl, Hm. reflexivity.
     + rewrite Hfst in Ho'. inversion Ho'; subst. exact G.
+Qed.
+
+(* ---------------- hwloc_set_group_depth at the end of the restrict (fix f97426a) ---------------- *)
+
+(* only attr->group.depth changes *)
+Lemma set_gdepth_identity d g :
+  let d' := set_gdepth d g in
+  o_group_depth d' = g /\ o_id d' = o_id d /\ o_gp d' = o_gp d /\ o_type d' = o_type d /\ o_os d' = o_os d /\
+  o_cs d' = o_cs d /\ o_ccs d' = o_ccs d /\ o_nds d' = o_nds d /\ o_cnds d' = o_cnds d /\ o_tm d' = o_tm d /\
+  o_lm d' = o_lm d /\ o_group_kind d' = o_group_kind d /\ o_group_subkind d' = o_group_subkind d.
+Proof. cbn. repeat split. Qed.
+
+Lemma regroup_tree_eq tbl d n m i x :
+  regroup_tree tbl (Obj d n m i x) =
+  Obj (match assocN (o_id d) tbl with Some g => set_gdepth d g | None => d end) (map (regroup_tree tbl) n) m i x.
+Proof. reflexivity. Qed.
+
+(* every object of the renumbered tree is an object of the tree with, at most, its group depth
+   replaced by the rank recorded for its id; memory, I/O and Misc subtrees are untouched *)
+Theorem regroup_tree_objs tbl o :
+  forall q, In q (nflatten (regroup_tree tbl o)) ->
+  exists q0, In q0 (nflatten o) /\ omch q = omch q0 /\ oich q = oich q0 /\ oxch q = oxch q0 /\
+             odata q = match assocN (oid q0) tbl with Some g => set_gdepth (odata q0) g | None => odata q0 end.
+Proof.
+  induction o as [d n m i x Hn Hm Hi Hx] using obj_ind2. intros q Hq.
+  rewrite regroup_tree_eq, nflatten_eq in Hq. cbn [onch] in Hq. destruct Hq as [<-|Hq].
+  - exists (Obj d n m i x). split; [rewrite nflatten_eq; left; reflexivity|]. cbn. repeat split.
+  - apply in_nflattens in Hq as [c' [Hc' Hq]]. apply in_map_iff in Hc' as [c [<- Hc]].
+    rewrite Forall_forall in Hn. destruct (Hn c Hc q Hq) as (q0 & H0 & Hrest).
+    exists q0. split; [|exact Hrest]. rewrite nflatten_eq. right. cbn [onch]. apply in_nflattens. exists c. auto.
 Qed.
